@@ -322,4 +322,327 @@ theorem enhance_converges {env env' : Env} (hS : env.Steady) (hS' : env'.Steady)
     hmiss hret hrewire rfl
   exact ⟨c1, c2, c3, c4, c5, c6⟩
 
+/-! ## Histories of loads, `hot_reload`s, notifications and the switch, under one environment -/
+
+/-- a step of the reloader thread (not an API operation of the cache) -/
+def HOp.isReloader : HOp → Bool
+  | .api _ => false
+  | _ => true
+
+/-- the state the reloader step `op` hands to `run_update` when it runs one (`HOp.runsPass`) — and the
+state it ends in when it does not (`hstep_noPass`) -/
+def prePass : HOp → St × RSt → St × RSt
+  | .notify evs, x => takeEvents x.1 x.2 evs
+  | .enhance, x => enhanceState x.1 x.2
+  | .hotReload, x => processMsgs x.1 x.2
+  | .api _, x => x
+
+/-- does the reloader step run `run_update`? `handle_events` in static mode, `hot_reload()` and the
+switch in local mode -/
+def HOp.runsPass : HOp → RSt → Bool
+  | .notify _, r => r.static_
+  | .hotReload, r => !r.static_
+  | .enhance, r => !r.static_
+  | .api _, _ => false
+
+theorem RSt.static_eta (r : RSt) (h : r.static_ = true) : { r with static_ := true } = r := by
+  cases r
+  simp only [] at h
+  subst h
+  rfl
+
+theorem prePass_facts (op : HOp) (hop : op.isReloader = true) (x : St × RSt) :
+    (prePass op x).1 = (processMsgs x.1 x.2).1 ∧ (prePass op x).2.graph = (processMsgs x.1 x.2).2.graph ∧
+    (prePass op x).2.dead = x.2.dead := by
+  cases op with
+  | api o => cases hop
+  | notify evs => exact ⟨rfl, rfl, processMsgs_dead x.1 x.2⟩
+  | hotReload => exact ⟨rfl, rfl, processMsgs_dead x.1 x.2⟩
+  | enhance => exact ⟨rfl, rfl, processMsgs_dead x.1 x.2⟩
+
+/-- a reloader step that runs no pass ends in `prePass` -/
+theorem hstep_noPass (env : Env) (fuel : Nat) (op : HOp) (hop : op.isReloader = true) (x : St × RSt)
+    (hd : x.2.dead = false) (hrp : op.runsPass x.2 = false) : hstep fuel (env, op) x = prePass op x := by
+  obtain ⟨s, r⟩ := x
+  cases op with
+  | api o => cases hop
+  | notify evs => exact handleEvents_local' env fuel s r evs hd hrp
+  | hotReload =>
+    have hs : r.static_ = true := by simpa [HOp.runsPass] using hrp
+    exact hotReload_static env fuel s r hd hs
+  | enhance =>
+    have hs : r.static_ = true := by simpa [HOp.runsPass] using hrp
+    show enhance env fuel s r = enhanceState s r
+    rw [enhance_static env fuel s r hd hs]
+    unfold enhanceState
+    rw [RSt.static_eta _ ((processMsgs_static s r).trans hs)]
+
+/-- a reloader step that runs a pass: `run_update` from `prePass`, then the drain -/
+theorem hstep_pass (env : Env) (fuel : Nat) (op : HOp) (x : St × RSt)
+    (hd : x.2.dead = false) (hrp : op.runsPass x.2 = true) :
+    hstep fuel (env, op) x =
+      processMsgs (runUpdate env fuel (prePass op x).1 (prePass op x).2).1
+        (runUpdate env fuel (prePass op x).1 (prePass op x).2).2 := by
+  obtain ⟨s, r⟩ := x
+  cases op with
+  | api o => cases hrp
+  | notify evs => exact handleEvents_static env fuel s r evs hd hrp
+  | hotReload =>
+    have hs : r.static_ = false := by simpa [HOp.runsPass] using hrp
+    exact hotReload_local env fuel s r hd hs
+  | enhance =>
+    have hs : r.static_ = false := by simpa [HOp.runsPass] using hrp
+    exact enhance_local env fuel s r hd hs
+
+/-- after a reloader step that runs no pass, a reloader in static mode still has nothing pending -/
+theorem prePass_idle (op : HOp) (x : St × RSt) (hrp : op.runsPass x.2 = false)
+    (hidle : x.2.static_ = true → x.2.toReload = []) :
+    (prePass op x).2.static_ = true → (prePass op x).2.toReload = [] := by
+  cases op with
+  | api o => exact hidle
+  | notify evs =>
+    intro h
+    have h1 : x.2.static_ = true := (processMsgs_static x.1 x.2).symm.trans h
+    have h2 : x.2.static_ = false := hrp
+    rw [h1] at h2; cases h2
+  | hotReload =>
+    intro _
+    have hs : x.2.static_ = true := by simpa [HOp.runsPass] using hrp
+    exact processMsgs_toReload_nil x.1 x.2 (hidle hs)
+  | enhance =>
+    intro _
+    have hs : x.2.static_ = true := by simpa [HOp.runsPass] using hrp
+    exact processMsgs_toReload_nil x.1 x.2 (hidle hs)
+
+/-- the hypotheses on ONE pass of a history (the pass `run_update` performs from `y`): acyclic
+look-ups, enough fuel for the sort, and the three named hypotheses of `C05_pass_converges_partial` -/
+structure PassOK (env : Env) (fuel : Nat) (y : St × RSt) : Prop where
+  acyclic : ∃ rank : Dep → Nat, ∀ a rs b, y.2.graph.rdepsOf a = some rs → b ∈ rs → rank b < rank a
+  enough : y.2.graph.length + 1 ≤ fuel
+  noMiss : NoMissInPass env fuel (updateSteps env fuel y.1 y.2)
+  returns : ReloadsReturn env fuel (updateSteps env fuel y.1 y.2)
+  noRewire : NoRewireOntoPending env fuel (updateSteps env fuel y.1 y.2)
+
+/-- the named hypotheses on an API operation that changes the cache, as in `LoadHist`: `LoadOK` for a
+load, the two no-fill hypotheses for `get_or_insert`, `NoDependentOn` for `remove` / `take` -/
+def ApiOK (env : Env) (fuel : Nat) : Op → St × RSt → Prop
+  | .load key, x => LoadOK env fuel x.1 x.2 key
+  | .getOrInsert key v, x =>
+      NoProbedKeyFilled x.1 (step env fuel x.1 (.getOrInsert key v)).1 x.2.graph ∧
+      NoPendingKeyFilled x.1 (step env fuel x.1 (.getOrInsert key v)).1
+  | .remove key, x => NoDependentOn x.1 x.2.graph key
+  | .take key, x => NoDependentOn x.1 x.2.graph key
+  | _, _ => False
+
+/-- **The per-step hypotheses of a history.** API operations: the operation leaves the cache as it is
+(`get_cached`, `contains`, …) or satisfies `ApiOK`. Reloader steps: when the step runs `run_update`
+(`HOp.runsPass`) and there is something to reload, that pass satisfies `PassOK`. -/
+def StepOK (env : Env) (fuel : Nat) : HOp → St × RSt → Prop
+  | .api o, x => (step env fuel x.1 o).1 = x.1 ∨ ApiOK env fuel o x
+  | op, x => op.runsPass x.2 = true → (prePass op x).2.toReload ≠ [] → PassOK env fuel (prePass op x)
+
+theorem StepOK.load {env : Env} {fuel : Nat} {x : St × RSt} {key : Key} (h : LoadOK env fuel x.1 x.2 key) :
+    StepOK env fuel (.api (.load key)) x := Or.inr h
+
+theorem StepOK.look {env : Env} {fuel : Nat} {x : St × RSt} {o : Op} (h : (step env fuel x.1 o).1 = x.1) :
+    StepOK env fuel (.api o) x := Or.inl h
+
+/-- invariant of the histories: between two reloader steps registrations may be in the channel
+(`Pending`: in static mode the registrations of a load are only taken at the next reloader step); the
+reloader is alive; the index is exact (the half the sort needs); in static mode nothing is pending -/
+structure SInv (env : Env) (fuel : Nat) (x : St × RSt) : Prop where
+  pending : Pending env fuel x.1 x.2.graph
+  live : x.2.dead = false
+  inv : x.2.graph.Inverse
+  idle : x.2.static_ = true → x.2.toReload = []
+
+theorem SInv.init (env : Env) (fuel : Nat) : SInv env fuel ({}, {}) :=
+  ⟨Pending.of_settled rfl (fun _ _ _ h => by cases h), rfl, inverse_nil, fun _ => rfl⟩
+
+theorem SInv.of_hinv {env : Env} {fuel : Nat} {x : St × RSt} (h : HInv env fuel x) (hI : x.2.graph.Inverse) :
+    SInv env fuel x := ⟨h.pending, h.live, hI, fun _ => h.idle⟩
+
+/-- **A reloader step** (`hot_reload()`, `handle_events`, the switch) under the unchanged environment:
+afterwards the channel is drained and everything registered and cached is settled. -/
+theorem SInv.step_reloader {env : Env} (hS : env.Steady) {fuel : Nat} {x : St × RSt} (h : SInv env fuel x)
+    (op : HOp) (hop : op.isReloader = true)
+    (hok : op.runsPass x.2 = true → (prePass op x).2.toReload ≠ [] → PassOK env fuel (prePass op x)) :
+    Settled env fuel (hstep fuel (env, op) x).1 (hstep fuel (env, op) x).2.graph ∧
+    (hstep fuel (env, op) x).1.out = [] ∧ SInv env fuel (hstep fuel (env, op) x) := by
+  obtain ⟨p1, p2, p3⟩ := prePass_facts op hop x
+  have hsetP : Settled env fuel (prePass op x).1 (prePass op x).2.graph := by
+    rw [p1, p2]; exact h.pending.drain hS
+  have hinvP : (prePass op x).2.graph.Inverse := by rw [p2]; exact processMsgs_inverse _ _ h.inv
+  have hliveP : (prePass op x).2.dead = false := p3.trans h.live
+  have houtP : (prePass op x).1.out = [] := by rw [p1]; rfl
+  cases hrp : op.runsPass x.2 with
+  | false =>
+    rw [hstep_noPass env fuel op hop x h.live hrp]
+    exact ⟨hsetP, houtP, ⟨Pending.of_settled houtP hsetP, hliveP, hinvP, prePass_idle op x hrp h.idle⟩⟩
+  | true =>
+    rw [hstep_pass env fuel op x h.live hrp]
+    by_cases ht : (prePass op x).2.toReload = []
+    · rw [runUpdate_idle env fuel _ _ ht, processMsgs_nil _ _ houtP]
+      exact ⟨hsetP, houtP, ⟨Pending.of_settled houtP hsetP, hliveP, hinvP, fun _ => rfl⟩⟩
+    · obtain ⟨⟨rank, hrank⟩, hf, m1, m2, m3⟩ := hok hrp ht
+      obtain ⟨c1, c2, c3, c4, _, c6⟩ := drainPass_converges hS hS (SameLoaders.refl hS) hsetP hinvP hrank hliveP hf
+        (changed := []) (fun _ _ _ => rfl) (fun _ _ => rfl) (fun d hd => by cases hd) m1 m2 m3 houtP
+      exact ⟨c1, c3, ⟨Pending.of_settled c3 c1, c2, c6, fun _ => c4⟩⟩
+
+/-- **An API step** keeps the invariant (the reloader's data is untouched; registrations pile up in the
+channel) -/
+theorem SInv.step_api {env : Env} (hS : env.Steady) {fuel : Nat} {x : St × RSt} (h : SInv env fuel x)
+    (o : Op) (hok : StepOK env fuel (.api o) x) : SInv env fuel (hstep fuel (env, .api o) x) := by
+  obtain ⟨s, r⟩ := x
+  have hp : Pending env fuel (step env fuel s o).1 r.graph := by
+    rcases hok with e | hok
+    · rw [show (step env fuel s o).1 = s from e]; exact h.pending
+    · cases o with
+      | load key => exact load_pending hS key h.pending hok
+      | getOrInsert key v =>
+        obtain ⟨f1, f2, f3⟩ := step_getOrInsert_facts env fuel s key v
+        exact h.pending.extend_static hS f1 f2 f3 hok.1 hok.2
+      | remove key =>
+        obtain ⟨f1, f2, f3⟩ := step_remove_facts env fuel s key
+        exact h.pending.remove hS f1 f2 f3 hok
+      | take key =>
+        obtain ⟨f1, f2, f3⟩ := step_take_facts env fuel s key
+        exact h.pending.remove hS f1 f2 f3 hok
+      | loadOwned key => exact hok.elim
+      | getCached key => exact hok.elim
+      | contains key => exact hok.elim
+      | clear => exact hok.elim
+  exact ⟨hp, h.live, h.inv, h.idle⟩
+
+/-- **The histories of the static-mode statement**: loads (and the other API operations `LoadHist`
+admits), `hot_reload()`, notifications and the switch, all under the ONE environment `env`, every step
+satisfying `StepOK` in the state it starts from. -/
+inductive StaticHist (env : Env) (fuel : Nat) : List (Env × HOp) → St × RSt → Prop
+  | nil (x : St × RSt) : StaticHist env fuel [] x
+  | cons (op : HOp) (rest : List (Env × HOp)) (x : St × RSt) :
+      StepOK env fuel op x → StaticHist env fuel rest (hstep fuel (env, op) x) →
+      StaticHist env fuel ((env, op) :: rest) x
+
+theorem SInv.step {env : Env} (hS : env.Steady) {fuel : Nat} {x : St × RSt} (h : SInv env fuel x)
+    (op : HOp) (hok : StepOK env fuel op x) :
+    SInv env fuel (hstep fuel (env, op) x) ∧
+    (op.isReloader = true →
+      Settled env fuel (hstep fuel (env, op) x).1 (hstep fuel (env, op) x).2.graph ∧
+      (hstep fuel (env, op) x).1.out = []) := by
+  cases op with
+  | api o => exact ⟨h.step_api hS o hok, fun e => by cases e⟩
+  | notify evs =>
+    obtain ⟨a, b, c⟩ := h.step_reloader hS (.notify evs) rfl hok
+    exact ⟨c, fun _ => ⟨a, b⟩⟩
+  | hotReload =>
+    obtain ⟨a, b, c⟩ := h.step_reloader hS .hotReload rfl hok
+    exact ⟨c, fun _ => ⟨a, b⟩⟩
+  | enhance =>
+    obtain ⟨a, b, c⟩ := h.step_reloader hS .enhance rfl hok
+    exact ⟨c, fun _ => ⟨a, b⟩⟩
+
+/-- **Histories in which the reloader may be switched to static mode**: the invariant holds at the end,
+and after EVERY reloader step of the history — every `hot_reload()`, every batch of events (in static
+mode: applied at once; in local mode: only taken), every `enhance_hot_reloading` — the channel is
+drained, everything registered and cached is settled, the reloader is alive, and in static mode nothing
+is pending. -/
+theorem static_hist_settled {env : Env} (hS : env.Steady) {fuel : Nat} {h : List (Env × HOp)} {x : St × RSt}
+    (hh : StaticHist env fuel h x) (hx : SInv env fuel x) :
+    SInv env fuel (runH fuel h x) ∧
+    ∀ h1 op h2, h = h1 ++ (env, op) :: h2 → op.isReloader = true →
+      Settled env fuel (runH fuel (h1 ++ [(env, op)]) x).1 (runH fuel (h1 ++ [(env, op)]) x).2.graph ∧
+      (runH fuel (h1 ++ [(env, op)]) x).1.out = [] ∧ SInv env fuel (runH fuel (h1 ++ [(env, op)]) x) := by
+  induction hh with
+  | nil x => exact ⟨hx, fun h1 op h2 e => by cases h1 <;> cases e⟩
+  | cons op0 rest x hok _ ih =>
+    obtain ⟨j1, j2⟩ := hx.step hS op0 hok
+    obtain ⟨i1, i2⟩ := ih j1
+    refine ⟨i1, fun h1 op h2 e hop => ?_⟩
+    cases h1 with
+    | nil =>
+      simp only [List.nil_append, List.cons.injEq, Prod.mk.injEq] at e
+      obtain ⟨⟨_, eo⟩, _⟩ := e
+      subst eo
+      obtain ⟨a, b⟩ := j2 hop
+      exact ⟨a, b, j1⟩
+    | cons a h1' =>
+      simp only [List.cons_append, List.cons.injEq] at e
+      obtain ⟨ea, er⟩ := e
+      subst ea
+      exact i2 h1' op h2 er hop
+
+/-- the invariant holds after every prefix of the history -/
+theorem static_hist_prefix {env : Env} (hS : env.Steady) {fuel : Nat} {h : List (Env × HOp)} {x : St × RSt}
+    (hh : StaticHist env fuel h x) (hx : SInv env fuel x) :
+    ∀ h1 h2, h = h1 ++ h2 → SInv env fuel (runH fuel h1 x) := by
+  induction hh with
+  | nil x =>
+    intro h1 h2 e
+    cases h1 with
+    | nil => exact hx
+    | cons a h1' => cases e
+  | cons op0 rest x hok _ ih =>
+    intro h1 h2 e
+    cases h1 with
+    | nil => exact hx
+    | cons a h1' =>
+      simp only [List.cons_append, List.cons.injEq] at e
+      obtain ⟨ea, er⟩ := e
+      subst ea
+      exact ih (hx.step hS op0 hok).1 h1' h2 er
+
+/-- after `enhance_hot_reloading` a live reloader is in static mode -/
+theorem enhance_static_after (env : Env) (fuel : Nat) (s : St) (r : RSt) (hd : r.dead = false) :
+    (enhance env fuel s r).2.static_ = true := by
+  cases hs : r.static_ with
+  | true => rw [enhance_static env fuel s r hd hs]; exact (processMsgs_static s r).trans hs
+  | false =>
+    rw [enhance_local env fuel s r hd hs, processMsgs_static, runUpdate_static]
+    rfl
+
+/-- a reloader step that has nothing to reload needs no hypothesis -/
+theorem StepOK.of_idle {env : Env} {fuel : Nat} {op : HOp} {x : St × RSt} (hop : op.isReloader = true)
+    (h : (prePass op x).2.toReload = []) : StepOK env fuel op x := by
+  cases op with
+  | api o => cases hop
+  | notify evs => exact fun _ hne => absurd h hne
+  | hotReload => exact fun _ hne => absurd h hne
+  | enhance => exact fun _ hne => absurd h hne
+
+/-- a reloader step whose pass satisfies `PassOK` -/
+theorem StepOK.of_pass {env : Env} {fuel : Nat} {op : HOp} {x : St × RSt} (hop : op.isReloader = true)
+    (h : PassOK env fuel (prePass op x)) : StepOK env fuel op x := by
+  cases op with
+  | api o => cases hop
+  | notify evs => exact fun _ _ => h
+  | hotReload => exact fun _ _ => h
+  | enhance => exact fun _ _ => h
+
+/-- `PassOK` from the executable checks -/
+theorem PassOK.of_checks {env : Env} {fuel : Nat} {y : St × RSt} (rank : Dep → Nat)
+    (hrank : ∀ x ∈ y.2.graph, ∀ b ∈ x.2.rdeps, rank b < rank x.1)
+    (hfuel : y.2.graph.length + 1 ≤ fuel)
+    (h1 : stepsHitB env fuel (updateSteps env fuel y.1 y.2) = true)
+    (h2 : stepsReturnB env fuel (updateSteps env fuel y.1 y.2) = true)
+    (h3 : noRewireB env fuel (updateSteps env fuel y.1 y.2) = true) : PassOK env fuel y :=
+  ⟨⟨rank, rank_of_entries hrank⟩, hfuel, noMiss_of_check h1, reloadsReturn_of_check h2, noRewire_of_check h3⟩
+
+/-- every history of `LoadHist` is one of `StaticHist` (its `hot_reload()`s have nothing to reload) -/
+theorem StaticHist.of_loadHist {env : Env} (hS : env.Steady) {fuel : Nat} {h : List (Env × HOp)} {x : St × RSt}
+    (hh : LoadHist env fuel h x) (hx : HInv env fuel x) : StaticHist env fuel h x := by
+  induction hh with
+  | nil x => exact .nil x
+  | load key rest s r hok _ ih => exact .cons _ _ _ (Or.inr hok) (ih (hx.step_load hS hok))
+  | hotReload rest x _ ih =>
+    exact .cons _ _ _ (StepOK.of_idle rfl (processMsgs_toReload_nil _ _ hx.idle)) (ih (hx.step_hotReload hS).2.2)
+  | insert key v rest s r h1 h2 _ ih => exact .cons _ _ _ (Or.inr ⟨h1, h2⟩) (ih (hx.step_insert hS h1 h2))
+  | remove key rest s r hd _ ih => exact .cons _ _ _ (Or.inr hd) (ih (hx.step_remove hS hd))
+  | take key rest s r hd _ ih => exact .cons _ _ _ (Or.inr hd) (ih (hx.step_take hS hd))
+  | look op rest x hop _ ih =>
+    have hstep' : hstep fuel (env, .api op) x = x := by
+      obtain ⟨s, r⟩ := x
+      show ((step env fuel s op).1, r) = (s, r)
+      rw [show (step env fuel s op).1 = s from hop]
+    exact .cons _ _ _ (Or.inl hop) (by rw [hstep']; exact ih hx)
+
 end AmVerif.Model
